@@ -48,7 +48,7 @@ for ci in range(ncirc):
     ms, mdesc = [], []
     for _ in range(rng.randint(1, 2)):
         r = rng.random()
-        if r < 0.4:
+        if r < 0.4 and not devname.startswith("default.tensor"):
             k = rng.randint(1, nw); ws = rng.sample(labels, k)
             ms.append(qp.probs(wires=ws)); mdesc.append({"kind": "probs", "wires": ws})
         else:
